@@ -50,6 +50,16 @@ S0 == [ eph |-> <<>>,            \* ephemeral configuration as committed (Junos!
         faulted |-> FALSE, updated |-> {}, deleted |-> {}, nloads |-> 0, irrmode |-> "ok", prevOk |-> FALSE,
         twin |-> FALSE, style |-> "", twinOk |-> FALSE, twinEnd |-> <<>> ]   \* C13: the same run, replies serialised differently
 
+(* the route-filters (as written) of the accepting terms of a policy that match family f *)
+AcceptFilters(P, f) == UNION {SeqSet(P.terms[k].filters) : k \in {k \in 1..Len(P.terms) : P.terms[k].accept /\ TermMatchesFamily(P.terms[k], f)}}
+(* boundary values (the default route, 0.0.0.0/0 up to /24, host routes) lie outside the denotation universes: for *)
+(* such policies the scenario says which route-filters are expected, literally                                     *)
+Exact(x) == "filters4" \in DOMAIN x
+Within4(P, x, d) == IF Exact(x) THEN AcceptFilters(P, "inet") \subseteq ToSet(x.filters4) ELSE AcceptAtoms(P, "inet", d) \subseteq ToSet(x.v4)
+Within6(P, x, d) == IF Exact(x) THEN AcceptFilters(P, "inet6") \subseteq ToSet(x.filters6) ELSE AcceptAtoms(P, "inet6", d) \subseteq ToSet(x.v6)
+Equal4(P, x, d) == IF Exact(x) THEN AcceptFilters(P, "inet") = ToSet(x.filters4) ELSE AcceptAtoms(P, "inet", d) = ToSet(x.v4)
+Equal6(P, x, d) == IF Exact(x) THEN AcceptFilters(P, "inet6") = ToSet(x.filters6) ELSE AcceptAtoms(P, "inet6", d) = ToSet(x.v6)
+Beyond(P, x, d) == ~Exact(x) /\ AcceptsOutsideUniverse(P, d)
 Pol(exp, n) == exp.policies[n]
 Known(exp, n) == Has(exp, "policies") /\ n \in DOMAIN exp.policies
 Acked(e) == e.fault \in {"none", "close-after", "late-ok"}      \* the reply that was sent is a positive one (late-ok: after the next request's)
@@ -70,6 +80,9 @@ ReqViol(st, e, staged1) ==
   (IF k = "commit" /\ ~st.loadsAcked THEN {V("C04", "CommitAlthoughALoadWasNotAcknowledged", "", e)} ELSE {})
   \cup
   (IF k = "load" /\ ~e.db_open THEN {V("C04", "LoadWithoutOpenDatabase", "", e)} ELSE {})
+  \cup
+  (* the commit was requested before every load of the run had been acknowledged - this one had not even been sent *)
+  (IF k = "load" /\ st.commitSeen THEN {V("C04", "CommitBeforeEveryLoadOfTheRun", "", e)} ELSE {})
   \cup
   (IF k = "load" THEN
      (IF e.update.foreign # <<>> THEN {V("C02", "WritesOutsidePolicyStatements", e.update.foreign[1], e)} ELSE {})
@@ -94,11 +107,11 @@ ReqViol(st, e, staged1) ==
                    x == Pol(st.expect, n) IN
                (IF FailOpen(P) THEN {V("C02", "FailOpenPolicy",
                         IF ~P.reject THEN "no trailing reject" ELSE "accepting term without family or route-filter", e)} ELSE {})
-               \cup (IF ~(AcceptAtoms(P, "inet", d) \subseteq ToSet(x.v4))
+               \cup (IF ~Within4(P, x, d)
                      THEN {V("C02", "AcceptsOutsideEvaluatedSet", "inet", e)} ELSE {})
-               \cup (IF ~(AcceptAtoms(P, "inet6", d) \subseteq ToSet(x.v6))
+               \cup (IF ~Within6(P, x, d)
                      THEN {V("C02", "AcceptsOutsideEvaluatedSet", "inet6", e)} ELSE {})
-               \cup (IF AcceptsOutsideUniverse(P, d) THEN {V("C02", "AcceptsRangesBeyondTheEvaluatedOnes", "", e)} ELSE {})
+               \cup (IF Beyond(P, x, d) THEN {V("C02", "AcceptsRangesBeyondTheEvaluatedOnes", "", e)} ELSE {})
                \cup (IF x.expr # "" /\ p.expr # x.expr
                      THEN {V("C16", "ExpressionUsedDiffersFromTheAnnotation", x.why, e)} ELSE {})))
        : i \in 1..Len(e.update.policies)}
@@ -157,10 +170,9 @@ EndViol(st, e) ==
      IF x.sel /\ x.eval = "ok"
      THEN (IF n \notin names THEN {V(IF exp.prop \in {"C15", "C11", "C17"} THEN exp.prop ELSE "C01", "ManagedPolicyMissingAfterSuccessfulRun", "", e)}
            ELSE LET P == Get(st.eph, n) IN
-             (IF AcceptAtoms(P, "inet", d) # ToSet(x.v4) \/ AcceptAtoms(P, "inet6", d) # ToSet(x.v6)
-                 \/ AcceptsOutsideUniverse(P, d) \/ FailOpen(P)
+             (IF ~Equal4(P, x, d) \/ ~Equal6(P, x, d) \/ Beyond(P, x, d) \/ FailOpen(P)
               THEN {V(IF exp.prop \in {"C15", "C11", "C17"} THEN exp.prop ELSE "C01", "InstalledFilterDiffersFromEvaluatedSet",
-                      IF AcceptAtoms(P, "inet", d) # ToSet(x.v4) THEN "inet" ELSE "inet6/other", e)} ELSE {})
+                      IF ~Equal4(P, x, d) THEN "inet" ELSE "inet6/other", e)} ELSE {})
              \cup (IF ~Readable(P) THEN {V("C01", "InstalledStateNotReadableByTheAgent", "", e)} ELSE {}))
      ELSE IF x.eval = "either"
      THEN (* C17: its evaluation may have met the transient error; if it is installed it must be right (an error   *)
